@@ -229,6 +229,7 @@ type pairOps struct {
 	writeStripedP func(src Striped, dst Buf) int
 	readStripedP  func(src Buf, dst Striped) int
 	block         func(n, ch int) func(in, out []uint64)
+	blockX        func(n, ch, srcExtra, dstExtra int) func(in, out []uint64)
 }
 
 var (
@@ -334,11 +335,15 @@ func regConv[S, D signal.SignalTypes](s, d int, name string, f func(*signal.Buff
 	p.name = name
 	p.conv = func(src, dst Buf) int { return f(src.(bufW[S]).b, dst.(bufW[D]).b) }
 	sk, dk := Types[s].Kind, Types[d].Kind
-	p.block = func(n, ch int) func(in, out []uint64) {
+	p.block = func(n, ch int) func(in, out []uint64) { return p.blockX(n, ch, 0, 0) }
+	// blockX: the source buffer is srcExtra frames longer than the n samples converted (the extra
+	// frames hold garbage), the destination dstExtra frames longer
+	p.blockX = func(n, ch, srcExtra, dstExtra int) func(in, out []uint64) {
 		frames := (n + ch - 1) / ch
-		sb := signal.Alloc[S](signal.Allocator{Channels: ch, Length: frames, Capacity: frames})
-		db := signal.Alloc[D](signal.Allocator{Channels: ch, Length: frames, Capacity: frames})
+		sb := signal.Alloc[S](signal.Allocator{Channels: ch, Length: frames + srcExtra, Capacity: frames + srcExtra})
+		db := signal.Alloc[D](signal.Allocator{Channels: ch, Length: frames + dstExtra, Capacity: frames + dstExtra})
 		sentinel := fromVal[D](Garbage(d))
+		sgarbage := fromVal[S](Garbage(s))
 		return func(in, out []uint64) {
 			// exactly len(in) samples: whole frames plus, when len(in) is not a multiple of the channel
 			// count, a partly filled last frame (made with AppendSample on a window)
@@ -355,6 +360,14 @@ func regConv[S, D signal.SignalTypes](s, d int, name string, f func(*signal.Buff
 				s2.SetSample(i, fromVal[S](Val{sk, r}))
 				// the destination starts out holding garbage: a conversion must overwrite it
 				d2.SetSample(i, sentinel)
+			}
+			if len(in) == frames*ch {
+				for i := len(in); i < s2.Len(); i++ {
+					s2.SetSample(i, sgarbage)
+				}
+				for i := len(in); i < d2.Len(); i++ {
+					d2.SetSample(i, sentinel)
+				}
 			}
 			guarded(name, func() { f(s2, d2) })
 			for i := range in {
@@ -437,6 +450,13 @@ func ConvVia(s, d, route int, in, out []uint64) {
 // source kind) through the real conversion function for (s, d), via real one-channel
 // buffers, and stores the raw results (Val.B of the destination kind) in out.
 func ConvBlock(s, d, n int) func(in, out []uint64) { return pairs[s][d].block(n, 1) }
+
+// ConvBlockUneven is ConvBlockCh with a source that is srcExtra frames longer than the n samples (n must
+// be a whole number of frames) or a destination that is dstExtra frames longer; only the first n results
+// are returned.
+func ConvBlockUneven(s, d, n, ch, srcExtra, dstExtra int) func(in, out []uint64) {
+	return pairs[s][d].blockX(n, ch, srcExtra, dstExtra)
+}
 
 // ConvBlockCh is ConvBlock over buffers with ch channels (the n samples are interleaved).
 func ConvBlockCh(s, d, n, ch int) func(in, out []uint64) { return pairs[s][d].block(n, ch) }
